@@ -9,6 +9,7 @@
    shared matrix type back unchanged — proved for the modelled checker of the
    current code by C09_expr_check_pure and refuted for the code before the fix. *)
 From AL Require Import Base.Str Base.AList Wf.RulesState Wf.StateExpr Wf.StateProofs.
+From AL Require Gen.GenRuleFields Wf.RuleFields.
 
 (* --- job_state_reset: after JobPre j . steps . JobPost j the per-job fields are
    back at their initial values, from EVERY start state *)
@@ -215,3 +216,12 @@ Theorem C09_step_check_old_refuted :
     snd (step_check (fun _ => [leak_e1]) true e x) <> x_matrix e.
 Proof. exact step_check_old_refuted. Qed.
 Print Assumptions C09_step_check_old_refuted.
+
+(* what a rule could carry from one job into the next is the fields of its struct: every field of
+   every Rule* type of the source (re-listed on every run, Gen/GenRuleFields.v) is a known one —
+   set at construction, the collected diagnostics, a lock, or a component of the transition
+   system above (observed by the probe after every callback) *)
+Theorem C09_rule_fields_are_known : forall x, In x GenRuleFields.rule_fields ->
+  exists c, In (fst (fst x), snd (fst x), c) RuleFields.allowed.
+Proof. exact RuleFields.rule_fields_known. Qed.
+Print Assumptions C09_rule_fields_are_known.
